@@ -73,21 +73,29 @@ for _n, (_q, _t) in SHARED.items():
     BACKEND_CONFIGS += [dict(model=_n, variant=v) for v in _q] + [dict(model=_n, variant=v, tier="thorough") for v in _t]
 
 
-def _fr_list(txt):
-    return [Fr(x) for x in txt.strip("()").split(",")]
+BACKEND_CONFIGS.append(dict(model="native-lagrange", variant=""))
+
+
+def _fr_list(vk, txt):
+    return [_ex(vk, x) for x in txt.strip("()").split(",")]
+
+
+def _ex(vk, x):
+    """exponent: exact ring constant symbolically (A1), float natively"""
+    return LP.const(Fr(x)) if vk.sym else float(Fr(x))
 
 
 def shared_params(vk, name, variant):
     p = lambda n, near=1.0: _par(vk, n, near)  # noqa: E731
     if name == "storakers":
         a_, b_ = variant.split("),b=(")
-        al, be = _fr_list(a_[2:] + ")"), _fr_list("(" + b_)
+        al, be = _fr_list(vk, a_[2:] + ")"), _fr_list(vk, "(" + b_)
         return dict(mu=[p(f"mu{i}") for i in range(len(al))], alpha=al, beta=be)
     if name == "extended_tube":
-        return dict(Gc=p("Gc"), delta=vk.reals("delta", (), near=0.1, spread=0.05), Ge=p("Ge", 0.5), beta=Fr(variant[2:]))
+        return dict(Gc=p("Gc"), delta=vk.reals("delta", (), near=0.1, spread=0.05), Ge=p("Ge", 0.5), beta=_ex(vk, variant[2:]))
     if name == "miehe_goektepe_lulei":
         pq = dict(x.split("=") for x in variant.split(","))
-        return dict(mu=p("mu"), N=p("N", 20.0), U=p("U", 5.0), p=Fr(pq["p"]), q=Fr(pq["q"]))
+        return dict(mu=p("mu"), N=p("N", 20.0), U=p("U", 5.0), p=_ex(vk, pq["p"]), q=_ex(vk, pq["q"]))
     from .c11_objectivity import model_params
 
     return model_params(vk, name, variant)
@@ -119,6 +127,10 @@ def backends(vk, cfg):
     """psi_jax(C) == psi_tensortrax(C) for all C in the domain, all parameters"""
     name, variant = cfg["model"], cfg["variant"]
     oracle.TIMEOUT_MS = 1500
+    if name == "native-lagrange":
+        if vk.sym:
+            _native_lagrange(vk)
+        return
     M.mark_real(vk, getattr(JX, name), alias=f"felupe.constitution.jax.models.hyperelastic.{name}")
     M.mark_real(vk, getattr(TT, name), alias=f"felupe.constitution.tensortrax.models.hyperelastic.{name}")
     kw = shared_params(vk, name, variant)
@@ -127,6 +139,7 @@ def backends(vk, cfg):
         if not eig and name != "miehe_goektepe_lulei":
             s0 = 1.25 if name == "van_der_waals" else 1.0
             C = M.sym_matrix(vk, "C", near=[[s0 if i == j else 0.0 for j in range(3)] for i in range(3)], spread=0.12)
+            vk.requires(det_ref(C), ">")  # C = F^T F with det F > 0
             pj, pt = run_both(vk, name, C, kw)
             zero_eq(vk, "psi_jax(C)==psi_tensortrax(C)/symmetric-C", pj, pt)
             if vk.sym:
@@ -139,6 +152,37 @@ def backends(vk, cfg):
         if vk.sym:
             vk.canary("diag/psi_jax==2.psi_tensortrax", pj, 2 * pt + 1)
     vk.note("model contracts are stated on the domain of the executed model code (bases of roots / arguments of log positive, denominators non-zero: listed as assumed side conditions)")
+
+
+def _native_lagrange(vk):
+    """jax vs tensortrax MORPH Lagrange models (expm, eigvalsh of general arguments, jax eigenvalue perturbation
+    1e-4): bounded native comparison, labelled, not counted"""
+    import jax
+
+    import felupe.constitution.jax.models.lagrange as JL
+    import felupe.constitution.tensortrax.models.lagrange as TL
+
+    jax.config.update("jax_enable_x64", True)
+    pm = [0.039, 0.371, 0.174, 2.41, 0.0094, 6.84, 5.65, 0.244]
+    rng = np.random.RandomState(11)
+    with symnp.native():
+        for nm, ns, sv in (("morph", 13, None), ("morph_representative_directions", 84, np.zeros((84, 1, 1)))):
+            try:
+                if sv is None:
+                    sv = np.zeros((13, 1, 1))
+                    sv[[1, 4, 6]] = 1.0
+                ut = mt.Material(getattr(TL, nm), nstatevars=ns, p=pm)
+                uj = mj.Material(getattr(JL, nm), nstatevars=ns, p=pm)
+                worst = 0.0
+                for _ in range(4):
+                    F = (np.eye(3) + rng.rand(3, 3) / 5).reshape(3, 3, 1, 1)
+                    Pt, st = ut.gradient([F, sv])
+                    Pj, sj = uj.gradient([F, sv])
+                    worst = max(worst, float(np.abs(np.asarray(Pj) - Pt).max() / np.abs(Pt).max()), float(np.abs(np.asarray(sj) - st).max() / max(1.0, np.abs(st).max())))
+                vk.bounded_standin(f"lagrange.{nm}: jax stress and state update == tensortrax (native float, relative)", "4 random F at the virgin state, tolerance 1e-4 (jax eigenvalue perturbation 1e-4)", 4, worst < 1e-4, f"max relative deviation {worst:.2e}")
+            except Exception as e:  # pragma: no cover
+                vk.bounded_standin(f"lagrange.{nm}: native comparison failed", "-", 0, False, f"{type(e).__name__}: {str(e)[:120]}")
+    vk.note("not decided: agreement of the jax and tensortrax MORPH Lagrange models (bounded native stand-in only); micro-sphere p, q instantiated")
 
 
 class _null:
@@ -348,6 +392,8 @@ def linear(vk, cfg):
     Es = [vk.reals(f"E{i+1}", (), near=2.0 + i, spread=0.3) for i in range(3)]
     nus = [vk.reals(n, (), near=0.2 + 0.05 * i, spread=0.05) for i, n in enumerate(("nu12", "nu23", "nu31"))]
     Gs = [vk.reals(n, (), near=1.0 + 0.2 * i, spread=0.2) for i, n in enumerate(("G12", "G23", "G31"))]
+    for x in Es + Gs:
+        vk.requires(x, ">")  # admissible engineering constants
     um = vk.real(fem.LinearElasticOrthotropic)(E=Es, nu=nus, G=Gs)
     vk.real(fem.LinearElasticOrthotropic.hessian)
     vk.real(fem.LinearElasticOrthotropic.gradient)
@@ -492,9 +538,10 @@ def moduli(vk, cfg):
             jax.config.update("jax_enable_x64", True)
         um = (mt if backend == "tensortrax" else mj).Hyperelastic(f, **native_kw(kw))
         mu0, K0 = _native_moduli(um)
-        vk.ensures_eq("initial-shear-modulus==documented", mu0, 0)
+        kf = native_kw(kw)
+        zero_eq(vk, "initial-shear-modulus==documented", mu0, float(doc_mu(kf)))
         if doc_K is not None:
-            vk.ensures_eq("initial-bulk-modulus==documented", K0, 0)
+            zero_eq(vk, "initial-bulk-modulus==documented", K0, float(doc_K(kf)))
         return
     eps = None
     if name == "van_der_waals":
